@@ -92,5 +92,15 @@ CLAIMED = {
    note='Trusted: z3; the base64/text rope contract; lemma composition (if crc16 loses the fold shape the corruption harness is not run and evidence says so). '
         'Non-canonical base64 text and int() liberalities in the raw form are outside the claim.',
    technique='bounded symbolic execution of the real source with z3 (SX) + inductive step lemmas on the AST-sliced crc16 loop body; replay on the untouched library'),
+ 'C14': dict(
+   text='Bounded symbolic execution of the real TlSchemas.serialize/serialize_field/deserialize and BlockId/BlockIdExt code against specs/tlspec.py (an '
+        'independent parse of the bundled .tl files with its own constructor ids and the TL framing rules): for every bundled constructor with supported '
+        'field types (740; quick: all with strings/vectors/flags/polymorphic fields plus a seeded third of the rest), every combination of the guarding flag '
+        'bits, string lengths 0..8/250..260 (quick: 8 boundary lengths), vector lengths 0..3 and polymorphic alternatives, with ALL integer, int128/int256, '
+        'byte-string and text contents symbolic: the bytes equal the TL encoding, deserialize returns the same value and consumes exactly all bytes; '
+        'constructor ids/argument lists/class names equal the schema files; BlockIdExt/BlockId conversions are lossless for all field values.',
+   note='Trusted: z3; specs/tlspec.py. The first four bytes of byte/text strings are concrete (the parser looks every payload up in its constructor table); '
+        'strings shorter than 4 bytes are concrete; parsing of vectors of non-bare elements is not demanded; hash()-protocol facts are checked on the '
+        'concrete witness runs only.'),
 }
 NOT_APPLICABLE = {}
